@@ -45,4 +45,18 @@ static inline int c11_isalnum(int c) {
   return (c >= '0' && c <= '9') || (c >= 'A' && c <= 'Z') || (c >= 'a' && c <= 'z');
 }
 
+
+/* ISO C 7.24.5.2 strchr / 7.24.5.1 memchr on a (constant) table string: the terminating NUL is part of the string for strchr */
+static inline char* c11_strchr(const char* s, int c)
+{
+  for (size_t i = 0;; i++) {
+    if (s[i] == (char)c) return (char*)(s + i);
+    if (s[i] == 0) return 0;
+  }
+}
+static inline void* c11_memchr(const void* s, int c, size_t n)
+{
+  for (size_t i = 0; i < n; i++) if (((const unsigned char*)s)[i] == (unsigned char)c) return (void*)((const char*)s + i);
+  return 0;
+}
 #endif
